@@ -2,13 +2,12 @@
    Only the property theorems (closed by [exact]) and their Print Assumptions; models are
    Model/Acl.v, Model/Float.v, Model/Val.v, Model/Assign.v, Model/Oper.v, proofs are in
    Proofs/AclProofs.v, EvalLaws.v, EvalBits.v.
-   NOT covered by these theorems: whole-program control flow (if / else-if / else, switch with
-   fallthrough) and the series logic of string concatenation in expression.go - they are exercised
-   only by the correspondence run `implrun evalprog` (checks/c07.py, straight-line and branching
-   programs against a python reference of the documented semantics), see notes/C07.md. *)
+   Control flow (if / else if / else, switch) and the concatenation series of expression.go are
+   covered by the theorems at the end of this file, over Model/Eval.v and Model/Concat.v, which are
+   tied to the interpreter by the evalprog / evalseries correspondence runs (checks/c07.py). *)
 From Coq Require Import List NArith ZArith Bool Permutation Floats.SpecFloat.
 From Falco Require Import Base.Res Base.Bytes Model.Float Model.Acl Model.Val Model.Assign Model.Oper
-  Proofs.AclProofs Proofs.EvalLaws Proofs.EvalBits.
+  Model.Concat Model.Eval Proofs.AclProofs Proofs.EvalLaws Proofs.EvalBits Proofs.ConcatProofs Proofs.EvalFlow.
 Import ListNotations.
 Local Open Scope Z_scope.
 
@@ -179,6 +178,115 @@ Theorem C07_ror_spec : forall parse_ip a n ni pi k kn lit, 0 <= k ->
             forall i, 0 <= i < 64 -> Z.testbit v i = Z.testbit a ((i + k) mod 64).
 Proof. exact ror_spec. Qed.
 
+(* ---------------------------------------------------------------- string concatenation series *)
+
+(* a series without TIME variables is the left fold of the binary Concat step from the empty string *)
+Theorem C07_concat_assoc_left : forall local l, no_time l = true -> all_notset l = false ->
+  concat_series local l =
+  match fold_left (step local) l (OK []) with
+  | OK s => OK (VStr s false)
+  | Err => Err | Crash => Crash | OutOfFuel => OutOfFuel
+  end.
+Proof. exact concat_assoc_left. Qed.
+
+Theorem C07_concat_step_is_binary : forall local rv x,
+  step local (OK rv) x =
+  match conv local x with
+  | OK o => concat (mkOp (VStr rv false) false) o
+  | Err => Err | Crash => Crash | OutOfFuel => OutOfFuel
+  end.
+Proof. exact step_is_binary_concat. Qed.
+
+(* TIME variable followed by an RTIME literal: one operand, the shifted time *)
+Theorem C07_time_calculation_step : forall local prev x nx rest rv ext nsec oob d,
+  sit x = CVar (VTime ext nsec oob) -> sit nx = CRTimeLit d ->
+  loop local prev (x :: nx :: rest) rv =
+  loop local (Some (sit nx)) rest
+       (rv ++ http_time (fst (time_add ext nsec (match sop nx with SMinus => wrap64 (- d) | _ => d end)))).
+Proof. exact time_calculation_step. Qed.
+
+Theorem C07_concat_conversion_spec : forall local s,
+  (forall v nan ninf pinf, concat_series local [lit s; var (VInt v nan ninf pinf)]
+                           = OK (VStr (s ++ int_string v nan ninf pinf) false)) /\
+  (forall f nan ninf pinf, concat_series local [lit s; var (VFloat f nan ninf pinf)]
+                           = OK (VStr (s ++ float_string f nan ninf pinf) false)) /\
+  (forall b, concat_series local [lit s; var (VBool b)] = OK (VStr (s ++ bool_string b) false)) /\
+  (forall ns, concat_series local [lit s; var (VRTime ns)] = OK (VStr (s ++ rtime_string ns) false)) /\
+  (forall t, concat_series local [lit s; var (VStr t false)] = OK (VStr (s ++ t) false)) /\
+  (forall a, concat_series local [lit s; var (VIp a false)] = OK (VStr (s ++ addr_string a) false)) /\
+  (forall ext nsec, concat_series local [lit s; var (VTime ext nsec false)] = OK (VStr (s ++ http_time ext) false)) /\
+  (forall n es, concat_series local [lit s; var (VAcl n es)] = Err).
+Proof. exact concat_conversion_spec. Qed.
+
+Theorem C07_conversion_texts :
+  (forall v, int_string v false false false = dec_int v) /\
+  (forall f, float_string f false false false = fmt3 f) /\
+  (forall ns, rtime_string ns = fmt3 (fdiv (f_of_int (Z.quot ns 1000000)) (f_of_int 1000))) /\
+  bool_string true = [Byte.x31] /\ bool_string false = [Byte.x30].
+Proof. exact conversion_texts. Qed.
+
+Theorem C07_notset_in_concat :
+  (forall s t, concat_series true [lit s; var (VStr t true)] = OK (VStr s false)) /\
+  (forall s a, concat_series true [lit s; var (VIp a true)] = OK (VStr s false)) /\
+  (forall s t, concat_series false [lit s; var (VStr t true)] = OK (VStr (s ++ s_null) false)) /\
+  (forall s a, concat_series false [lit s; var (VIp a true)] = OK (VStr (s ++ s_null) false)) /\
+  (forall local l, all_notset l = true -> concat_series local l = OK (VStr [] true)).
+Proof. exact notset_in_concat. Qed.
+
+(* ---------------------------------------------------------------- control flow (every program, store, oracle) *)
+
+Theorem C07_if_selects_first_true : forall parse_ip re_match c0 t0 elifs e s pre c b post,
+  (c0, t0) :: elifs = pre ++ (c, b) :: post ->
+  Forall (fun cb => cond_is parse_ip re_match s (fst cb) false) pre ->
+  cond_is parse_ip re_match s c true ->
+  exec_stmt parse_ip re_match (PIf c0 t0 elifs e) s = exec_block parse_ip re_match b s.
+Proof. exact if_selects_first_true. Qed.
+
+Theorem C07_if_else_when_all_false : forall parse_ip re_match c0 t0 elifs e s,
+  Forall (fun cb => cond_is parse_ip re_match s (fst cb) false) ((c0, t0) :: elifs) ->
+  exec_stmt parse_ip re_match (PIf c0 t0 elifs e) s =
+  match e with Some b => exec_block parse_ip re_match b s | None => Done s end.
+Proof. exact if_else_when_all_false. Qed.
+
+Theorem C07_if_condition_error : forall parse_ip re_match c0 t0 elifs e s pre c b post,
+  (c0, t0) :: elifs = pre ++ (c, b) :: post ->
+  Forall (fun cb => cond_is parse_ip re_match s (fst cb) false) pre ->
+  (eval_cexp parse_ip re_match s c = Err \/ exists o, eval_cexp parse_ip re_match s c = OK o /\ truth o = Err) ->
+  exec_stmt parse_ip re_match (PIf c0 t0 elifs e) s = Failed s.
+Proof. exact if_condition_error. Qed.
+
+Theorem C07_switch_selects_first_match : forall parse_ip re_match ctl dflt s o pre t body ft post,
+  eval_rexp s ctl = OK o ->
+  Forall (fun c => sw_test parse_ip re_match (control_of o) (case_test c) = OK false) pre ->
+  sw_test parse_ip re_match (control_of o) t = OK true ->
+  exec_stmt parse_ip re_match (PSwitch ctl (pre ++ (t, body, ft) :: post) dflt) s
+  = sw_run parse_ip re_match ((t, body, ft) :: post) s.
+Proof. exact switch_selects_first_match. Qed.
+
+Theorem C07_switch_fallthrough_step : forall parse_ip re_match t body ft rest s,
+  sw_run parse_ip re_match ((t, body, ft) :: rest) s =
+  match exec_block parse_ip re_match body s with
+  | Done s' => if ft then sw_run parse_ip re_match rest s' else Done s'
+  | o => o
+  end.
+Proof. exact switch_fallthrough_step. Qed.
+
+Theorem C07_switch_fallthrough_spec : forall parse_ip re_match chain tl bl rest s,
+  Forall (fun c => snd c = true) chain ->
+  sw_run parse_ip re_match (chain ++ (tl, bl, false) :: rest) s
+  = exec_block parse_ip re_match (flat_map (fun c => snd (fst c)) chain ++ bl) s.
+Proof. exact switch_fallthrough_spec. Qed.
+
+Theorem C07_switch_default_spec : forall parse_ip re_match ctl cases dflt s o,
+  eval_rexp s ctl = OK o ->
+  Forall (fun c => sw_test parse_ip re_match (control_of o) (case_test c) = OK false) cases ->
+  exec_stmt parse_ip re_match (PSwitch ctl cases dflt) s =
+  match dflt with
+  | Some d => if (d <? length cases)%nat then sw_run parse_ip re_match (skipn d cases) s else Done s
+  | None => Done s
+  end.
+Proof. exact switch_default_spec. Qed.
+
 Print Assumptions C07_acl_impl_eq_spec.
 Print Assumptions C07_acl_spec_meaning.
 Print Assumptions C07_acl_perm_invariant.
@@ -213,3 +321,16 @@ Print Assumptions C07_shr_spec.
 Print Assumptions C07_shift_negative_count.
 Print Assumptions C07_rol_spec.
 Print Assumptions C07_ror_spec.
+Print Assumptions C07_concat_assoc_left.
+Print Assumptions C07_concat_step_is_binary.
+Print Assumptions C07_time_calculation_step.
+Print Assumptions C07_concat_conversion_spec.
+Print Assumptions C07_conversion_texts.
+Print Assumptions C07_notset_in_concat.
+Print Assumptions C07_if_selects_first_true.
+Print Assumptions C07_if_else_when_all_false.
+Print Assumptions C07_if_condition_error.
+Print Assumptions C07_switch_selects_first_match.
+Print Assumptions C07_switch_fallthrough_step.
+Print Assumptions C07_switch_fallthrough_spec.
+Print Assumptions C07_switch_default_spec.
